@@ -8,6 +8,7 @@ CONSTANTS
   NRandom = 0
   BuildMax = 0
   BuildIds = {}
+  WithFamilies = TRUE
   StaticInit = TRUE
 INIT GInit
 NEXT GNext
